@@ -123,3 +123,66 @@ let () =
     | [z; o] -> let (h, inv) = computeHuffLen (n_of_int (int_of_string z)) (n_of_int (int_of_string o)) in
       Printf.sprintf "%d %b" (int_of_n h) inv
     | _ -> "badargs")
+
+(* ---- external calls: answered by the parent process over stdin/stdout ---- *)
+let ext_memo : (string, string) Hashtbl.t = Hashtbl.create 1024
+let ext_call (req : string) : string =
+  match Hashtbl.find_opt ext_memo req with
+  | Some a -> a
+  | None ->
+    print_string ("EXT " ^ req ^ "\n"); Stdlib.flush Stdlib.stdout;
+    let a = Stdlib.input_line Stdlib.stdin in
+    Hashtbl.replace ext_memo req a; a
+
+let cops_to_string (ops : cop list) : string =
+  String.concat "," (List.map (fun o -> match o with
+    | CW d -> "w:" ^ hex_of_bytes d | CF -> "f") ops)
+
+let ext_deflate (lvl : z) (ops : cop list) : n list =
+  if ops = [] then [] else
+  bytes_of_hex (ext_call (Printf.sprintf "deflate %d %s" (int_of_z lvl) (cops_to_string ops)))
+
+let flushmode_of_int i = match i with 0 -> FlushSync | 1 -> FlushFull | 2 -> FlushIndex | _ -> FlushInvalid
+
+let colon s = String.split_on_char ':' s
+let want_log = ref false
+
+let () =
+  (* xw <lvl> <chunk> <idx> op... ; op = w:<hex> | f:<mode> | c *)
+  register "xw" (fun args -> match args with
+    | lvl :: chunk :: idx :: ops ->
+      (match new_writer (z_of_string lvl) (z_of_string chunk) (z_of_string idx) with
+       | Inl e -> "new:refused"
+       | Inr s0 ->
+         let wops = List.map (fun o -> match colon o with
+           | ["w"; h] -> WWrite (bytes_of_hex h)
+           | ["f"; m] -> WFlush (flushmode_of_int (int_of_string m))
+           | _ -> WClose) ops in
+         let (obs, s) = wrun ext_deflate s0 wops in
+         let os = String.concat "," (List.map (fun (n, e) ->
+           Printf.sprintf "%d:%s" (int_of_n n) (oerr_name e)) obs) in
+         Printf.sprintf "%s|%d|%d|%s" (if os = "" then "-" else os) (int_of_n s.w_in) (int_of_n s.w_out) (hex_of_bytes s.w_sink))
+    | _ -> "badargs");
+  (* xr <hexdata> op... ; op = s:<off>:<whence> | r:<n> | c *)
+  register "xr" (fun args -> match args with
+    | hex :: ops ->
+      (match open_reader (bytes_of_hex hex) with
+       | Inl e -> "open:" ^ err_name e
+       | Inr s0 ->
+         let rops = List.map (fun o -> match colon o with
+           | ["s"; off; wh] -> RSeek (z_of_string off, z_of_string wh)
+           | ["r"; n] -> RRead (n_of_string n)
+           | _ -> RClose) ops in
+         let (obs, s) = rrun s0 rops in
+         let os = String.concat "," (List.map (fun o -> match o with
+           | OSeek (p, e) -> Printf.sprintf "s:%s:%s" (if e = None then z_to_string p else "0") (oerr_name e)
+           | ORead (b, e) -> Printf.sprintf "r:%s:%s" (hex_of_bytes b) (oerr_name e)
+           | OClose e -> Printf.sprintf "c:%s" (oerr_name e)) obs) in
+         let lg = String.concat ";" (List.map (fun (o, l) ->
+           Printf.sprintf "%d+%d" (int_of_n o) (int_of_n l)) s.r_log) in
+         Printf.sprintf "open:nil|%s|%s" (if os = "" then "-" else os) (if !want_log then lg else ""))
+    | _ -> "badargs");
+  register "xrlog" (fun args ->
+    want_log := true;
+    let r = (Hashtbl.find handlers "xr") args in
+    want_log := false; r)
